@@ -32,7 +32,10 @@ TRUSTED_BASE = [
 
 
 def select(obs, prop, tier):
-    sel = [o for o in obs if prop in o.props and (tier == "thorough" or o.tier == "quick")]
+    sel = [o for o in obs if prop in o.props and o.kind != "canary" and (tier == "thorough" or o.tier == "quick")]
+    # the canary of every injected module that contributes an obligation runs too (must fail)
+    units = {o.unit for o in sel}
+    sel += [o for o in obs if o.kind == "canary" and o.unit in units]
     return sel
 
 
